@@ -887,7 +887,7 @@ pub fn run(ctx: &Ctx, rep: &mut Report) {
         },
         |ctx, c: &PathCase, acc| check_path(ctx, c, acc, true),
     );
-    let n = ctx.cases(40_000, 1_000_000);
+    let n = ctx.cases(40_000, 5_000_000);
     run_prop(
         ctx,
         rep,
@@ -933,7 +933,7 @@ pub fn run(ctx: &Ctx, rep: &mut Report) {
         },
         |ctx, v: &Vec<Vec<u8>>, acc| check_raw_read(ctx, v, acc, true),
     );
-    let n = ctx.cases(40_000, 1_000_000);
+    let n = ctx.cases(40_000, 5_000_000);
     run_prop(
         ctx,
         rep,
@@ -943,7 +943,7 @@ pub fn run(ctx: &Ctx, rep: &mut Report) {
         || proptest::collection::vec(proptest::collection::vec(prop_oneof![Just(0u8), Just(1u8), any::<u8>()], 0..=6), 0..3),
         |ctx, v: &Vec<Vec<u8>>, acc| check_raw_read(ctx, v, acc, false),
     );
-    let n = ctx.cases(30_000, 800_000);
+    let n = ctx.cases(30_000, 4_000_000);
     run_prop(
         ctx,
         rep,
